@@ -9,6 +9,7 @@ FILES = [  # (tag, path, local?)  how it is reached is fixed by the layout below
     ("Inc", "inc/incdir.h", False),    # #include "incdir.h" found through -I inc
     ("Sys", "sys/sysdir.h", False),    # #include <sysdir.h> found through -S sys
     ("Bes", "sub/beside.h", False),    # #include "beside.h" found next to sub/b.h (not in cwd)
+    ("Own", "sys/own.h", True),        # named on the command line AFTER main.h, which has already reached it as <own.h> through -S sys (#pragma once)
 ]
 
 
@@ -175,7 +176,8 @@ def gen_layout(rng):
         files[path] = text
         ents += es
         by_file[path] = es
-    files["main.h"] = '#include "cwdinc.h"\n#include "incdir.h"\n#include <sysdir.h>\n' + files["main.h"]
+    files["main.h"] = '#include "cwdinc.h"\n#include "incdir.h"\n#include <sysdir.h>\n#include <own.h>\n' + files["main.h"]
+    files["sys/own.h"] = "#pragma once\n" + files["sys/own.h"]
     files["sub/b.h"] = '#include "beside.h"\n' + files["sub/b.h"]
     # a command (.N) file next to main.h
     cmds = []
@@ -205,5 +207,14 @@ def gen_layout(rng):
                 if e.name == cls or e.cls == cls:
                     e.attrs["ignoretype"] = True
     if cmds:
-        files["main.N"] = "".join(c + "\n" for c in cmds)
+        # the spellings a command file allows: leading blanks, trailing blanks / tabs / comments, CRLF line ends, blank and comment lines
+        out = ""
+        for c in cmds:
+            if rng.random() < 0.3:
+                out += rng.choice(["\n", "# a comment line\n", "   \n"])
+            out += rng.choice(["", "", "  ", "\t"]) + c + rng.choice(["", "", "  ", "\t", "   # why", " #x", "\r", " \r"]) + "\n"
+        if rng.random() < 0.3:
+            out = out[:-1]          # the last line is not terminated by a newline (it ends in blanks, a comment or the parameter itself)
+            out = out.rstrip("\r") if out.endswith("\r") else out
+        files["main.N"] = out
     return files, ents
